@@ -14,6 +14,7 @@ structure CW where
   semis : Bool := false
   pendings : List Nat := []
   ok : Bool := true            -- false once a nil child has been dereferenced (Go panics there)
+  clog : List Bytes := []      -- ghost: the comment entries handed to `WriteLeadingComments` so far (not observable in Go)
   deriving Repr
 
 def CW.panic (cw : CW) : CW := { cw with ok := false }
@@ -86,7 +87,7 @@ def CW.leadingComments (cw : CW) (cs : List Bytes) : CW :=
   if !cw.pretty || cs.isEmpty then cw
   else
     let cw := cw.commentsLoop cs true
-    ({ cw with pendings := [] }).writeNewline.writeIndent
+    ({ cw with pendings := [], clog := cw.clog ++ cs }).writeNewline.writeIndent
 
 def CW.addMapping (cw : CW) (sl sc : Nat) : CW := cw.mapAdvance (·.addMapping sl sc)
 def CW.addNamedMapping (cw : CW) (sl sc : Nat) (name : Bytes) : CW := cw.mapAdvance (·.addNamedMapping sl sc name)
